@@ -941,32 +941,33 @@ def run_manager_from_cli(input_path, output_directory, validate_only, convert):
         try:
             validate_input_file(input_path)
             logger.info("Valid input file.")
-            return 0
+            exit(0)
         except ValidationError:
             logger.error("Schema validation error. See previous error message for details.", file=stderr)
-            return 1
+            exit(1)
 
     if convert:
         if convert == "IDF":
             try:
                 write_idf(input_path)
                 print("Output converted to IDF objects.")
-                return 0
+                exit(0)
             except Exception as e:  # noqa: BLE001
                 logger.warning(f"Conversion to IDF error: {e}", file=stderr)
-                return 1
+                exit(1)
 
         else:
             print(f"Unsupported conversion format type: {format}", file=stderr)
-            return 1
+            exit(1)
 
     if output_directory is None:
         print('Output directory path must be passed as an argument, aborting', file=stderr)
-        return 1
+        exit(1)
 
     output_path = Path(output_directory).resolve()
 
-    return _run_manager_from_cli_worker(input_path, output_path)
+    # click discards the value returned by a command, so the status has to be raised explicitly
+    exit(_run_manager_from_cli_worker(input_path, output_path))
 
 
 if __name__ == "__main__":
